@@ -46,7 +46,7 @@ def run_one(name):
 def main():
     names = sorted(n for n in os.listdir(SEEDED) if os.path.isdir(os.path.join(SEEDED, n)))
     if len(sys.argv) > 1:
-        names = [n for n in names if any(n.startswith(p) for p in sys.argv[1:])]
+        names = [n for n in names if any(n.startswith(p) or ('-' + p) in n for p in sys.argv[1:])]
     out = []
     with concurrent.futures.ThreadPoolExecutor(4) as ex:
         for r in ex.map(run_one, names):
